@@ -543,7 +543,13 @@ func init() {
 		// (which signals / does not signal) is still pending … most cases pass or skip, rarely one signals
 		for i := 0; i < 40*scale; i++ {
 			hi := int(r.pick(6, 12, 30, 60))
-			src := fmt.Sprintf("((ctxlive 5) (draw b (i 0 %d)) (draw pad (slice (bool) 0 3)) (if (eq b 0) (cleanup (ctx))) (if (eq b 6) (cleanup (cleanup (ctx)))) (if (eq b 4) (cleanup (error 4))) (if (eq b 5) (cleanup (error 5))) (if (eq b 7) (cleanup (skip))) (if (eq b 8) (cleanup (error 2)) (cleanup (skip))) (if (eq b 9) (cleanup (emit 9)) (cleanup (skip))) (if (eq b 1) (error 1)) (if (eq b 3) (error 3)) (if (eq b 2) (skip)) (if (eq b 3) (skip)) (if (eq b 5) (skip)))", hi)
+			src := fmt.Sprintf("((ctxlive 5) (draw b (i 0 %d)) (draw pad (slice (bool) 0 3)) (if (eq b 0) (cleanup (ctx))) (if (eq b 6) (cleanup (cleanup (ctx)))) (if (eq b 4) (cleanup (error 4))) (if (eq b 5) (cleanup (error 5))) (if (eq b 7) (cleanup (skip))) (if (eq b 8) (cleanup (error 2)) (cleanup (skip))) (if (eq b 9) (cleanup (emit 9)) (cleanup (skip))) (if (eq b %d) (cleanup (skip))) (if (eq b 1) (error 1)) (if (eq b 3) (error 3)) (if (eq b 2) (skip)) (if (eq b 3) (skip)) (if (eq b 5) (skip)) (if (eq b %d) (skip)))", hi, hi, hi)
+			quiet := i%2 == 1
+			if quiet {
+				// the same without the failing branches: such runs pass, and every test case that neither skips nor has a
+				// skipping cleanup counts
+				src = fmt.Sprintf("((ctxlive 5) (draw b (i 0 %d)) (draw pad (slice (bool) 0 3)) (if (eq b 0) (cleanup (ctx))) (if (eq b 6) (cleanup (cleanup (ctx)))) (if (eq b 7) (cleanup (skip))) (if (eq b 9) (cleanup (emit 9)) (cleanup (skip))) (if (eq b %d) (cleanup (skip))) (if (eq b 2) (skip)) (if (eq b %d) (skip)))", hi, hi, hi)
+			}
 			prog := mustSX(src)
 			fl := baseFlags()
 			fl.Checks = int(r.pick(10, 100))
@@ -566,6 +572,24 @@ func init() {
 			}
 			if what == "" && signalled && (kind == "pass" || kind == "only") {
 				what = "a test case signalled a failure but Check reported " + run.verdict
+			}
+			// a passing Check has counted every test case in which nothing failed and nothing skipped (neither the body nor a
+			// cleanup; at the maximum of b a cleanup and the body both skip), whatever the test case before it did
+			if what == "" && kind == "pass" {
+				clean := 0
+				for _, inv := range run.in.invs {
+					if inv.isBuf || inv.ended != "ret" || len(inv.draws) == 0 {
+						continue
+					}
+					if b, err := strconv.Atoi(strings.TrimSpace(inv.draws[0])); err == nil && b != hi {
+						if (quiet && b != 2 && b != 7 && b != 9) || (!quiet && (b == 0 || b == 6 || b > 9)) {
+							clean++
+						}
+					}
+				}
+				if clean != fl.Checks {
+					what = fmt.Sprintf("Check passed (%s) after %d test cases in which nothing failed and nothing skipped; -rapid.checks=%d", run.verdict, clean, fl.Checks)
+				}
 			}
 			if what != "" {
 				p := flagsStr(fl)
